@@ -867,7 +867,9 @@ def _run_mux(pipe, events, timescale=None, taps='all', dl_late=False, share_ops=
                 push_nested()
         obs.subscribe(on_next=on_next, on_error=on_error, on_completed=on_completed)
         if resub_completed:
-            src = feeds[-1]          # (the closures above push into the feed of this subscription)
+            # (the closures above push into the feed of this subscription; a pipeline that did
+            # not subscribe its source gets a feed nobody listens to: source-events-lost)
+            src = feeds[-1] if feeds else Subject()
         if dl_late:      # the dead-letter observable is subscribed after the data pipeline
             _subscribe_routers(rec, ctx)
         try:
